@@ -3,7 +3,7 @@
 # Confirms a seeded change (applies, builds, baseline passes, demo fails with / passes without) in a scratch
 # worktree of /repo, then runs the property checks against the patched tree.
 set -u
-SEED=$1; shift
+SEED=$(readlink -f $1); shift
 export GOFLAGS=-mod=mod GOPROXY=off GOSUMDB=off GOTOOLCHAIN=local
 W=$(mktemp -d /tmp/seedeval.XXXXXX)
 git -C /repo worktree add -q --detach $W/repo HEAD || exit 2
